@@ -453,8 +453,11 @@ def gen_dor(rng, n):
         nmax = {"tensor": 3, "sym2": 4, "gln_adjoint": 3, "sln_adjoint": 3}.get(kind, 5)
         dim = rng.randint(2 if kind in ("sln_adjoint", "hyperbolic") else 1, nmax)
         simple = kind == "hyperbolic" or rng.random() < 0.7
-        spec = H.rand_spec(rng, ring="Z" if kind == "astype" else "Q", simple=simple, n=dim,
-                           kind="orth" if kind == "hyperbolic" else None)
+        ring = "Z" if kind == "astype" or (kind not in ("sym2", "hyperbolic") and rng.random() < 0.3) else "Q"
+        spec = H.rand_spec(rng, ring=ring, simple=simple, n=dim, kind="orth" if kind == "hyperbolic" else None)
+        if ring == "Z":   # exact-integer generators whose float inverse is usually not exactly representable
+            for h in spec["hist"]:
+                h["m"] = H.enc(H.unimodular(rng, dim, rng.randint(dim, 2 * dim + 2)))
         alph = H.spec_names(spec)
         yield {"kind": kind, "spec": spec, "w": H.rand_letters(rng, alph, rng.choice([0, 1, 2, 4, 7])),
                "C": H.enc(H.gen_matrix(rng, dim, "Q")), "sub": [H.rand_letters(rng, alph, rng.randint(1, 3)) for _ in range(2)],
@@ -485,7 +488,7 @@ def run_dor(inp):
     w = H.join_word(inp["w"], simple)
     A = np.asarray(rep[w], dtype=float)
     Ai = np.linalg.inv(A)
-    C = H.tonp(inp["C"])
+    C = H.tonp(inp["C"])        # float conjugator / test vector also for integer representations
     ev = lambda d, s=None: np.asarray(d[w if s is None else s])
     if kind == "copy":
         got, want = ev(R.Representation(rep)), A
@@ -535,7 +538,7 @@ def run_dor(inp):
 
 
 def judge_dor(inp, obs, lr):
-    tags = {"kind": inp["kind"], "simple": inp["spec"]["simple"]}
+    tags = {"kind": inp["kind"], "simple": inp["spec"]["simple"], "ring": inp["spec"]["ring"]}
     if "exc" in obs:
         return {"expected": "derived representation evaluates", "observed": obs, "tags": dict(tags, exc=obs["exc"])}
     if not obs["err"] <= 1e-8:
